@@ -34,7 +34,9 @@ TDecode == IsEvent("dec") /\ LET e == Rec[l] IN
              /\ e.ok => Bound(e)
 TEll == IsEvent("ell") /\ LET e == Rec[l] IN NLess(e.r0, P) /\ Elligator(e.r0, e.dst) /\ Bound(e)
 TH2c == IsEvent("h2c") /\ LET e == Rec[l] IN NLess(e.r1, P) /\ NLess(e.r2, P) /\ HashToCurve(e.r1, e.r2, e.dst) /\ Bound(e)
-TCtor == IsEvent("ctor") /\ LET e == Rec[l] IN RepOK(e.rep) /\ Construct(e.name, e.dst, Aff(e.rep))
+TCtor == IsEvent("ctor") /\ LET e == Rec[l] IN
+           IF e.some THEN RepOK(e.rep) /\ Construct(e.name, e.dst, Aff(e.rep))
+           ELSE UNCHANGED <<reg, hseen>> /\ obs' = [k |-> "ctor"]     \* "no element" is always an admissible answer
 TConv == IsEvent("conv") /\ LET e == Rec[l] IN Convert(e.name, e.a, e.dst) /\ Bound(e)
 \* rescale: same POINT (not only same element), different projective scaling
 TRescale == IsEvent("rescale") /\ LET e == Rec[l] IN
